@@ -169,6 +169,7 @@ inductive IStmt where
   | declCmp (o : Op2) (x y : Nat)        -- `Bit t = (x == y);` (t is an ordinary signal)
   | reg (e : Expr)                       -- `auto t = reg(e);`        clocked: the register's ENABLE input is the observed effect
   | memW (addr d : Expr)                 -- `mem[addr] = d;`          clocked: the write port's wrEnable input is the observed effect
+  | dfltAssign (x : Nat) (d : Val)       -- `x = BitDefault(d);` on an existing Bit: a further default on an already assigned / defaulted signal
   | resetAssign (x : Nat) (e : Expr)     -- `x.resetNode(); x = e;`   the vector is re-created (all alias caches dropped) and re-initialised
   deriving Repr
 
